@@ -47,6 +47,15 @@ CONC_TB = ["sequentially consistent interleaving of the atomic / lock operations
            "the cfg(prometheus_verif) sync shim and the scheduler (harness/src/sched.rs) decide what 'the same schedule' means"]
 
 PROPS = {
+    "C16": dict(
+        module="Prom.Props.C16",
+        areas=[dict(area="c16", quick=800, thorough=30000)],
+        rule="case = one scenario script (registry with/without prefix and common labels; 1-5 collectors: counter, int counter, gauge, int gauge, histogram, pulling gauge, counter/gauge/histogram vectors with children; "
+             "help and label values with backslash, quote, LF and multi-byte characters; 2-10 register/unregister/gather calls) executed by BOTH builds of the crate: this harness (default features) and pv-plain (--no-default-features); "
+             "each gather prints the structure and the TextEncoder bytes; non-trivial = a gathered family with several samples or several families; distinct by request text",
+        trusted=["what rustc generates from the feature flag is exercised per scenario (both harness crates are rebuilt from /repo by cargo on every run), not proved",
+                 "f64::to_string as C04"],
+    ),
     "C13": dict(
         module="Prom.Props.C13",
         areas=[dict(area="pb", quick=1500, thorough=60000, oracle_prefixes=["pb dec"])],
